@@ -22,6 +22,9 @@ def gen_graph_hist(rng, N, p_bad=0.25, maxops=12):
         if rng.random() < 0.15:
             bad = rng.choice([[0, 0, 1], [rref(rng, n), n + 1, 1], [0, min(1, n - 1), 0], [0, min(1, n - 1), -2]])
             edges.insert(rng.randint(0, len(edges)), bad)
+        if edges and rng.random() < 0.12:
+            a, b, k = rng.choice(edges)
+            edges.insert(rng.randint(0, len(edges)), [b, a, rng.choice([-1, 0, -k, 1])])
         ops = []
         for _ in range(rng.randint(1, maxops)):
             r = rng.random()
@@ -38,6 +41,10 @@ def gen_graph_hist(rng, N, p_bad=0.25, maxops=12):
                     if a == b and rng.random() > p_bad / 4:
                         b = (a + 1) % max(n, 1)
                     es.append([a, b, rng.choice([1, 2, 3]) if rng.random() > p_bad / 4 else rng.choice([0, -1])])
+                if es and rng.random() < 0.35:
+                    # the same unordered pair again in this batch, either endpoint order, any sign
+                    a, b, k = rng.choice(es)
+                    es.insert(rng.randint(0, len(es)), [b, a, rng.choice([1, 2, -1, 0, -k])] if rng.random() < 0.5 else [a, b, rng.choice([1, -1, 0])])
                 ops.append(["adds", es])
             elif r < 0.85:
                 ops.append(["valence", rref(rng, n, p_bad)])
@@ -66,8 +73,22 @@ def gen_div_hist(rng, N, p_bad=0.2, maxops=25, big=False):
             q = rref(rng, n, 0.04)
         ops = []
         for _ in range(rng.randint(1, maxops)):
-            kind = rng.choice(["lend", "borrow", "fire", "transfer"] + (["cfg_lend", "cfg_borrow", "cfg_fire", "cfg_degree_at"] if q is not None else []))
-            if kind in ("fire", "cfg_fire"):
+            kind = rng.choice(["lend", "borrow", "fire", "transfer"] + (["cfg_lend", "cfg_borrow", "cfg_fire", "cfg_degree_at", "cfg_superstable", "cfg_superstable", "cfg_legal", "cfg_nonneg"] if q is not None else []))
+            if kind in ("cfg_superstable", "cfg_nonneg"):
+                ops.append([kind])
+                if q is not None and q < n and n >= 3 and rng.random() < 0.5:
+                    # the same configuration object asked again after the chip counts of two
+                    # non-sink vertices were swapped (any amount; only the marker is recorded here,
+                    # the harness fills in the amount from the live degrees)
+                    a, b = rng.sample([v for v in range(n) if v != q], 2)
+                    ops.append(["swap", a, b])
+                    ops.append([kind])
+            elif kind == "cfg_legal":
+                S = [v for v in range(n) if v != q and rng.random() < 0.5]
+                if rng.random() < p_bad / 2:
+                    S.append(rng.choice([q, n + 1]))
+                ops.append([kind, S])
+            elif kind in ("fire", "cfg_fire"):
                 S = [rref(rng, n, p_bad / 3) for _ in range(rng.randint(0, n))]
                 if kind == "cfg_fire" and q is not None and q < n:
                     if rng.random() < p_bad:
@@ -235,8 +256,21 @@ def gen_orient_hist(rng, N, p_bad=0.2, maxops=25):
                 ops.append([rng.choice(["get", "get", "is_source", "is_sink"]), a, b])
             elif r < 0.7:
                 ops.append([rng.choice(["in", "out"]), rref(rng, n, p_bad / 2)])
-            else:
+            elif r < 0.9:
                 ops.append([rng.choice(["full", "reverse", "divisor", "divisor", "canonical"])])
+            else:
+                k2 = rng.choice(["reverse_keep", "inspect_kept", "inspect_kept", "set_kept"])
+                if k2 == "set_kept" and pairs:
+                    a, b = rng.choice(pairs)
+                    if rng.random() < 0.5:
+                        a, b = b, a
+                    ops.append(["set_kept", a, b, rng.choice([0, 1, 2])])
+                elif k2 != "set_kept":
+                    ops.append([k2])
+        if mode in ("full", "acyclic") and rng.random() < 0.5:
+            # a reversed copy taken early and looked at again after the original was edited
+            ops.insert(0, ["reverse_keep"])
+            ops.append(["inspect_kept"])
         s = dict(g)
         s.update(op="orient_hist", init=init, ops=ops, _mode=mode)
         out.append(s)
@@ -440,8 +474,36 @@ def gen_enhanced_dhar(rng, N, nmax=5):
     return out
 
 
-def gen_greedy(rng, N, nmax=6):
+def gen_greedy_thick(rng, N):
+    """multi-edges at an indebted vertex, heavy debt that is nevertheless cleared within the
+    budget because every borrow brings in the full valence"""
     out = []
+    for _ in range(N):
+        n = rng.randint(2, 4)
+        m = rng.randint(3, 6)
+        E = {}
+        perm = list(range(n))
+        rng.shuffle(perm)
+        for i in range(1, n):
+            E[(min(perm[rng.randrange(i)], perm[i]), max(perm[rng.randrange(i)], perm[i]))] = m
+        E = {e: k for e, k in E.items() if e[0] != e[1]}
+        comp_ok = len({x for e in E for x in e}) == n
+        if not comp_ok:
+            E = {(i, i + 1): m for i in range(n - 1)}
+        v = rng.randrange(n)
+        val = sum(k for e, k in E.items() if v in e)
+        nb = sum(1 for e in E if v in e)
+        borrows = rng.randint(1, 10 * n)              # borrows needed at v alone
+        debt = val * (borrows - 1) + rng.randint(1, val)
+        d = [debt + rng.randint(0, 5) for _ in range(n)]  # rich neighbours: stays winnable
+        d[v] = -debt
+        out.append({"n": n, "edges": gen.present_edges(rng, E), "op": "greedy", "deg": d, "_kind": "thick", "_genus": gen.genus_of(n, E),
+                    "_band": "high", "_debt": f"thick nb={nb} val={val}"})
+    return out
+
+
+def gen_greedy(rng, N, nmax=6):
+    out = gen_greedy_thick(rng, max(1, N // 4))
     for _ in range(N):
         g, E = gen.gen_graph(rng, 2, nmax)
         n = g["n"]
@@ -505,7 +567,11 @@ def gen_elements(rng, N, nmax=6):
                 orient.append([b, a])
         rng.shuffle(orient)
         s = dict(g)
-        s.update(op="elements", deg=[rng.randint(-9, 12) for _ in range(n)], orient=orient)
+        order = ["graph", "divisor", "orientation", "ewd"]
+        rng.shuffle(order)
+        s.update(op="elements", deg=[rng.randint(-9, 12) for _ in range(n)], orient=orient, draw_order=order)
+        if orient and rng.random() < 0.5:
+            s["second_orient"] = [p for p in orient if rng.random() < 0.5]
         out.append(s)
     return out
 
@@ -530,6 +596,16 @@ def gen_rt(rng, N, nmax=6, faults=None):
             names = gen.gen_names(rng, n, style=style)
         g["names"] = names
         g.pop("warmup", None)
+        g.pop("warm_single", None)
+        if len(g["edges"]) >= 1 and rng.random() < 0.3:
+            # save once, thicken an existing edge (or insert the rest) on the same object, save again
+            if rng.random() < 0.6:
+                a, b, k = rng.choice(g["edges"])
+                g["edges"] = g["edges"] + [[b, a, rng.randint(1, 3)]]
+                g["warmup"] = len(g["edges"]) - 1
+            elif len(g["edges"]) >= 2:
+                g["warmup"] = rng.randint(1, len(g["edges"]) - 1)
+            g["warm_single"] = rng.random() < 0.5
         kind = rng.choice(["graph", "divisor", "divisor", "orientation", "script"])
         mag = rng.choice([3, 50, 2 ** 40, 2 ** 53 + 1, 2 ** 70, 10 ** 30])
         s = dict(g)
@@ -583,6 +659,7 @@ def gen_bounds(rng, N, nmax=5, exhaustive_upto=4):
         # same graph object asked twice: first on a prefix of the edges, then after the rest was inserted
         if len(s["edges"]) >= 2 and rng.random() < 0.35:
             s["warmup"] = rng.randint(1, len(s["edges"]) - 1)
+            s["warm_single"] = rng.random() < 0.5
         return s
     for n, E in pool:
         out.append(warm({"op": "bounds", "n": n, "edges": gen.present_edges(rng, E, split=False), "names": gen.gen_names(rng, n), "_kind": "exhaustive"}))
@@ -626,4 +703,64 @@ def gen_closed(rng, tier):
                         E = {(a, b): 1 for a in range(n) for b in range(a + 1, n)}   # single part = K_n per the library's convention
                     s["_graph"] = {"n": n, "edges": [[a, b, 1] for (a, b) in E]}
                 out.append(s)
+    return out
+
+
+def gen_dhar_batch(rng, N, nmax=5):
+    out = []
+    for _ in range(N):
+        g, E = gen.gen_graph(rng, 3, nmax, names=False)
+        g.pop("warmup", None)
+        n = g["n"]
+        strategies = []
+        for _ in range(rng.randint(1, 4)):
+            strategies.append(sorted(rng.randrange(n) for _ in range(rng.randint(1, 3))))
+        queries = []
+        for _ in range(rng.randint(2, 4)):
+            q = rng.randrange(n)
+            sts = [[v for v in st if v != q] or [(q + 1) % n] for st in strategies]
+            qd = {"q": q, "base": [0] * n if rng.random() < 0.7 else [rng.randint(0, 1) for _ in range(n)], "strategies": sts + sts[:1]}
+            if rng.random() < 0.3:
+                _, E2 = gen.simple_family(rng, n)
+                qd["edges"] = gen.present_edges(rng, E2)
+            queries.append(qd)
+        s = dict(g)
+        s.update(op="dhar_batch", queries=queries)
+        out.append(s)
+    return out
+
+
+def gen_cfg_requery(rng, N, nmax=5):
+    """one configuration object, small non-negative chip counts, asked `is_superstable` /
+    legality again and again while chips are permuted and moved in between"""
+    out = []
+    for _ in range(N):
+        g, E = gen.gen_graph(rng, 3, nmax)
+        g.pop("warmup", None)
+        n = g["n"]
+        q = rng.randrange(n)
+        val = [0] * n
+        for (a, b), m in E.items():
+            val[a] += m
+            val[b] += m
+        entries = [[v, rng.randint(0, max(0, val[v] - 1)) if v != q else rng.randint(-2, 2)] for v in range(n)]
+        others = [v for v in range(n) if v != q]
+        ops = [["cfg_superstable"]]
+        for _ in range(rng.randint(2, 8)):
+            r = rng.random()
+            if r < 0.5 and len(others) >= 2:
+                a, b = rng.sample(others, 2)
+                ops.append(["swap", a, b])
+            elif r < 0.7:
+                ops.append(["cfg_fire", [v for v in others if rng.random() < 0.4]])
+            elif r < 0.85:
+                ops.append([rng.choice(["cfg_lend", "cfg_borrow"]), rng.choice(others)])
+            else:
+                ops.append(["transfer", rng.choice(others), rng.choice(others), 1])
+            ops.append([rng.choice(["cfg_superstable", "cfg_superstable", "cfg_nonneg"])])
+            if rng.random() < 0.3:
+                ops.append(["cfg_legal", [v for v in others if rng.random() < 0.5]])
+        s = dict(g)
+        s.update(op="div_hist", entries=entries, q=q, ops=ops, alias=False)
+        out.append(s)
     return out
